@@ -3,7 +3,7 @@
    witnesses for the defects that the faithful model reproduces. *)
 From Coq Require Import QArith Qring Qfield Setoid Morphisms Lia List ZArith NArith Bool.
 From SE Require Import C31.VisitorModel.
-From SE Require Import C31.SeriesSpec C31.Invert C31.LogAtan C31.Exp C31.Nthroot C31.Hyp.
+From SE Require Import C31.SeriesSpec C31.Invert C31.LogAtan C31.Exp C31.Nthroot C31.Hyp C31.SinCos C31.Tanh C31.Tan.
 Local Open Scope Q_scope.
 
 (* ------------------------------------------------------------------ primitives *)
@@ -57,12 +57,12 @@ Proof.
 Qed.
 
 Theorem atan_spec_b s prec :
-  wfb s = true -> const0 s = true -> prec_ok prec = true -> peqb s pvar = false ->
+  wfb s = true -> const0 s = true -> prec_ok prec = true ->
   exists r, series_atan s prec = Ok r /\ wf r /\ den r O == 0 /\
             eqn (N.to_nat prec - 1) (pD (den r) * (p1 + den s * den s))%ps (pD (den s)).
 Proof.
-  intros W H Hp Hf. apply atan_spec_general;
-    [apply wfb_wf; exact W|apply const0_coef; assumption|apply prec_ok_lt; exact Hp|exact Hf].
+  intros W H Hp. apply atan_spec;
+    [apply wfb_wf; exact W|apply const0_coef; assumption|apply prec_ok_lt; exact Hp].
 Qed.
 
 Theorem atanh_spec_b s prec :
@@ -147,13 +147,13 @@ Qed.
 
 (* y(0) = 0, y' (1 + s^2) = s'  characterises atan s *)
 Theorem atan_taylor s prec r (y : ps) :
-  wfb s = true -> const0 s = true -> prec_ok prec = true -> peqb s pvar = false ->
+  wfb s = true -> const0 s = true -> prec_ok prec = true ->
   series_atan s prec = Ok r ->
   y O == 0 -> (pD y * (p1 + den s * den s))%ps =p pD (den s) ->
   eqn (N.to_nat prec) (den r) y.
 Proof.
-  intros W H Hp Hf Er Y0 Yd.
-  destruct (atan_spec_b s prec W H Hp Hf) as (r' & Er' & _ & R0 & HR).
+  intros W H Hp Er Y0 Yd.
+  destruct (atan_spec_b s prec W H Hp) as (r' & Er' & _ & R0 & HR).
   rewrite Er in Er'. inversion Er'; subst r'.
   assert (Hlt := prec_ok_lt prec Hp).
   replace (N.to_nat prec) with (S (N.to_nat prec - 1)) by lia.
@@ -215,6 +215,96 @@ Proof.
   - rewrite Ydc. apply peq_eqn. intros k; unfold pscale; ring.
   - rewrite S0, Ys0. reflexivity.
   - rewrite C0, Yc0. reflexivity.
+Qed.
+
+(* ------------------------------------------------------------------ sin / cos *)
+Theorem sin_cos_spec_b s prec :
+  wfb s = true -> const0 s = true -> prec_ok prec = true ->
+  exists rs rc, series_sin s prec = Ok rs /\ series_cos s prec = Ok rc /\
+    wf rs /\ wf rc /\ den rs O == 0 /\ den rc O == 1 /\
+    eqn (N.to_nat prec - 1) (pD (den rs)) (pD (den s) * den rc)%ps /\
+    eqn (N.to_nat prec - 1) (pD (den rc)) (- (pD (den s) * den rs))%ps.
+Proof.
+  intros W H Hp. apply sin_cos_spec;
+    [apply wfb_wf; exact W|apply const0_coef; assumption|apply prec_ok_lt; exact Hp].
+Qed.
+
+Theorem sin_cos_taylor s prec rs rc (ys yc : ps) :
+  wfb s = true -> const0 s = true -> prec_ok prec = true ->
+  series_sin s prec = Ok rs -> series_cos s prec = Ok rc ->
+  ys O == 0 -> yc O == 1 ->
+  pD ys =p (pD (den s) * yc)%ps -> pD yc =p (- (pD (den s) * ys))%ps ->
+  eqn (N.to_nat prec) (den rs) ys /\ eqn (N.to_nat prec) (den rc) yc.
+Proof.
+  intros W H Hp Es Ec Ys0 Yc0 Yds Ydc.
+  destruct (sin_cos_spec_b s prec W H Hp) as (rs' & rc' & Es' & Ec' & _ & _ & S0 & C0 & HS & HC).
+  rewrite Es in Es'. inversion Es'; subst rs'. rewrite Ec in Ec'. inversion Ec'; subst rc'.
+  assert (Hlt := prec_ok_lt prec Hp).
+  replace (N.to_nat prec) with (S (N.to_nat prec - 1)) by lia.
+  apply (ode_unique_pair (pD (den s)) (-1 # 1)).
+  - exact HS.
+  - rewrite HC. apply peq_eqn. intros k; unfold pscale, popp; ring.
+  - apply peq_eqn. exact Yds.
+  - rewrite Ydc. apply peq_eqn. intros k; unfold pscale, popp; ring.
+  - rewrite S0, Ys0. reflexivity.
+  - rewrite C0, Yc0. reflexivity.
+Qed.
+
+(* ------------------------------------------------------------------ tan / tanh *)
+Theorem tan_spec_b s prec :
+  wfb s = true -> const0 s = true -> prec_ok prec = true ->
+  exists r, series_tan s prec = Ok r /\ wf r /\ den r O == 0 /\
+            eqn (N.to_nat prec - 1) (pD (den r)) (pD (den s) * (p1 + den r * den r))%ps.
+Proof.
+  intros W H Hp. apply tan_spec;
+    [apply wfb_wf; exact W|apply const0_coef; assumption|apply prec_ok_lt; exact Hp].
+Qed.
+
+Theorem tanh_spec_b s prec :
+  wfb s = true -> const0 s = true -> prec_ok prec = true ->
+  exists r, series_tanh s prec = Ok r /\ wf r /\ den r O == 0 /\
+            eqn (N.to_nat prec - 1) (pD (den r)) (pD (den s) * (p1 - den r * den r))%ps.
+Proof.
+  intros W H Hp. apply tanh_spec;
+    [apply wfb_wf; exact W|apply const0_coef; assumption|apply prec_ok_lt; exact Hp].
+Qed.
+
+Theorem tan_taylor s prec r (y : ps) :
+  wfb s = true -> const0 s = true -> prec_ok prec = true ->
+  series_tan s prec = Ok r ->
+  y O == 0 -> pD y =p (pD (den s) * (p1 + y * y))%ps ->
+  eqn (N.to_nat prec) (den r) y.
+Proof.
+  intros W H Hp Er Y0 Yd.
+  destruct (tan_spec_b s prec W H Hp) as (r' & Er' & _ & R0 & HR).
+  rewrite Er in Er'. inversion Er'; subst r'.
+  assert (Hlt := prec_ok_lt prec Hp).
+  replace (N.to_nat prec) with (S (N.to_nat prec - 1)) by lia.
+  apply (ode_unique (fun z => (pD (den s) * (p1 + z * z))%ps)).
+  - intros m a b Hab. apply eqn_mul; [reflexivity|]. apply eqn_add; [reflexivity|].
+    apply eqn_mul; exact Hab.
+  - exact HR.
+  - apply peq_eqn. exact Yd.
+  - rewrite R0, Y0. reflexivity.
+Qed.
+
+Theorem tanh_taylor s prec r (y : ps) :
+  wfb s = true -> const0 s = true -> prec_ok prec = true ->
+  series_tanh s prec = Ok r ->
+  y O == 0 -> pD y =p (pD (den s) * (p1 - y * y))%ps ->
+  eqn (N.to_nat prec) (den r) y.
+Proof.
+  intros W H Hp Er Y0 Yd.
+  destruct (tanh_spec_b s prec W H Hp) as (r' & Er' & _ & R0 & HR).
+  rewrite Er in Er'. inversion Er'; subst r'.
+  assert (Hlt := prec_ok_lt prec Hp).
+  replace (N.to_nat prec) with (S (N.to_nat prec - 1)) by lia.
+  apply (ode_unique (fun z => (pD (den s) * (p1 - z * z))%ps)).
+  - intros m a b Hab. apply eqn_mul; [reflexivity|]. apply eqn_sub; [reflexivity|].
+    apply eqn_mul; exact Hab.
+  - exact HR.
+  - apply peq_eqn. exact Yd.
+  - rewrite R0, Y0. reflexivity.
 Qed.
 
 (* ------------------------------------------------------------------ refutations *)
